@@ -122,6 +122,15 @@ class RebuildProp(Prop):
                 m = copy.deepcopy(r)
                 m["touched"] = [["s", "out", "f"]]
                 out.append((m, "M19.impl"))
+            # the transaction model must notice a plain entry that is not in place / one that is, after the failure
+            for r in first(recs, lambda r: r.get("txn") and len(r.get("placed", [])) >= 1 and "blocked" in r["txn"]):
+                m = copy.deepcopy(r)
+                m["placed"] = m["placed"][:-1]
+                out.append((m, "M19.txn"))
+            for r in first(recs, lambda r: r.get("txn") and "blocked" in r["txn"] and r["txn"][-1] == "plain"):
+                m = copy.deepcopy(r)
+                m["placed"] = m["placed"] + [len(m["txn"])]
+                out.append((m, "M19.txn"))
         return out
 
     def scen(self, rng, P, v, tree_spec, cands_fn, dest_fn=None, **kw):
@@ -525,6 +534,19 @@ class C14(RebuildProp):
         return "%s/v%s" % (clause, case["version"] if case else "?")
 
 
+def txn_universe():
+    """The universe of RebuildTxn.tla: every sequence of up to four entries of kinds plain / escape / blocked."""
+    from . import core, tlaval
+    from .core import Machinery
+    r = core.run_tlc("RebuildTxn.tla", "Sim_RebuildTxn.cfg", workers=1, timeout=300)
+    if r.error or r.violation:
+        raise Machinery("RebuildTxn emission failed: %s" % (r.error or r.violation))
+    out = sorted({tuple(es) for _, es in tlaval.find_tagged(r.out, "TXN")})
+    if len(out) != 120:
+        raise Machinery("RebuildTxn emitted %d sequences, 120 expected" % len(out))
+    return out, r.cmd
+
+
 def pathres_universe():
     """The universe of PathRes.tla (destination pre-states with symbolic links x metafile entries with hostile
     elements), emitted by TLC together with the model's own prediction."""
@@ -670,6 +692,7 @@ class C19(RebuildProp):
                 import copy
                 extra.append(dict(copy.deepcopy(c), victims=True))
         out += extra[::2] if tier != "thorough" else extra
+        out += self.txn_cases(tier, rng)
         out += self.pathres_cases(tier, rng)
         # benign controls: ordinary names must keep working (copy happens inside the destination)
         for v in (1, 2, 3):
@@ -691,7 +714,44 @@ class C19(RebuildProp):
              "what": "path resolution with symbolic links + _destination + copypath (fixed): every mkdir and the write "
                      "resolve inside the destination for 17 820 (destination pre-state, metafile entry) worlds"}] + [
             {"module": "PathRes.tla", "cfg": "MC_PathRes_%s.cfg" % v, "expect": "fail", "workers": 2, "what": w}
-            for v, w in bad.items()]
+            for v, w in bad.items()] + [
+            {"module": "RebuildTxn.tla", "cfg": "MC_RebuildTxn.cfg", "workers": 2, "coverage": True, "coverage_exempt": ["RebuildTxn!Rollback"],
+             "what": "one rebuild as a sequence of plain / escaping / failing entries (fixed: the error propagates): nothing "
+                     "outside the destination is touched; what stays inside is what was listed before the failure"},
+            {"module": "RebuildTxn.tla", "cfg": "MC_RebuildTxn_rollback.cfg", "workers": 2, "coverage": True,
+             "what": "a clean-up that removes validated names only is safe as well (and leaves nothing behind)"},
+            {"module": "RebuildTxn.tla", "cfg": "MC_RebuildTxn_live.cfg", "workers": 2, "what": "every run ends (done or failed)"},
+            {"module": "RebuildTxn.tla", "cfg": "MC_RebuildTxn_discard.cfg", "expect": "fail", "workers": 2,
+             "what": "seed R22-C19: clean-up of every RECORDED name reaches the file an escaping entry points to"},
+            {"module": "RebuildTxn.tla", "cfg": "MC_RebuildTxn_nocheck.cfg", "expect": "fail", "workers": 2,
+             "what": "no destination check (pinned commit): escaping entries are written through"}]
+
+    def txn_cases(self, tier, rng):
+        """RebuildTxn.tla's universe replayed into the real rebuild: v1 metafiles whose entries are, in listed order, plain
+        names, names that escape (somebody else's file sits where they point), names whose copy must fail (listed below
+        an entry that is a file).  One piece per entry."""
+        seqs, cmd = txn_universe()
+        esc = (["..", ".."], ["..", "..", "..", "lone-x"], ["@SBX@/abs"], ["a", "..", "..", ".."])
+        cases = []
+        for n, es in enumerate(seqs):
+            files, roles = [], []
+            for i, k in enumerate(es, 1):
+                if k == "plain":
+                    files.append((["p%d.bin" % i], "plain", i))
+                elif k == "escape":
+                    files.append((esc[(n + i) % len(esc)] + ["v%d.txt" % i], "escape", i))
+                else:
+                    files.append((["blk%d" % i], "blocker", i))
+                    files.append((["blk%d" % i, "inner.bin"], "blocked", i))
+            t = {"name": "txn", "single": False, "files": []}
+            for fi, (mp, role, i) in enumerate(files):
+                t["files"].append({"path": ["t%d.bin" % fi], "meta_path": mp, "size": B, "txn_role": role, "txn_entry": i,
+                                   "cands": [{"cls": "intact", "search": 0, "depth": fi % 2}]})
+            cases.append({"version": 1, "P": B, "tree": t, "meta_src": "ref", "hostile": True, "nsearch": 1, "unrelated": 1,
+                          "victims": True, "txn": list(es), "clauses": ["C19.inside", "M19.txn"],
+                          "route": ("lib", "cli")[n % 2]})
+        self._txn = {"sequences": len(seqs), "cases_run": len(cases), "cmd": cmd, "complete": True}
+        return cases
 
     def pathres_cases(self, tier, rng):
         """PathRes.tla's universe replayed into the real rebuild (quick: a stratified seeded sample)."""
@@ -722,7 +782,8 @@ class C19(RebuildProp):
         return cases
 
     def extra_coverage(self, tier, cases, recs):
-        return {"pathres_universe_replay": getattr(self, "_pathres", None)}
+        return {"pathres_universe_replay": getattr(self, "_pathres", None),
+                "rebuildtxn_universe_replay": getattr(self, "_txn", None)}
 
     def nontrivial(self, case):
         if case.get("op") == "pathres":
